@@ -46,7 +46,7 @@ Driver for property C20 (file descriptors stay attached to the message that carr
                 ` ; `, then ` || `, then `D <rawhex> a=<args> b=<queue before> q=<queue after> p=<body|N|!Exception>`
                 per delivery joined by ` ; `, then ` | <buffer hex> <queue>`
 -/
-open Txdbus.Proto
+open Txdbus.Proto Txdbus.Proto.FdsE2E
 
 namespace DrvC20
 
